@@ -3,7 +3,6 @@
    REAL function for every row of the table: fromString(name_i) == vp_c05_make_mech(i).  The cut refuses (model assertion,
    run becomes inconclusive) any argument that is not exactly one whole table name held in a name slot, or the empty string. */
 #ifdef HAVE_T_struct_QArrayData
-#define C05_ID_EMPTY 38   /* row of the empty name (static_assert in h.cpp) */
 void F_vp_c05_make_mech(uint32_t id, char *out);
 // MODEL: _ZN5QXmpp7Private13SaslMechanism10fromStringE11QStringView
 struct L_1f71b25bad _ZN5QXmpp7Private13SaslMechanism10fromStringE11QStringView(uint64_t n, char *p) {
